@@ -22,8 +22,8 @@ CLAIMS = {
         "MakeMoveFromString in Go, model and spec fold; every printed legal move parsed back on the Go side.", ref='5/C03, 10.4'),
  'C04': dict(cat='proof', tech='Lean 4 theorems about the executable search model (PV legality for all table contents) + black-box correspondence + spec judge of answers and PVs',
    text="PROVED on the search model (Props/C04): every PV written by negamax is a line of generated moves each passing MakeMove+IsLegal, for arbitrary contents of the shared tables "
-        "(negamax_pv_legal_partial, hypothesis: window inside [-INF, INF]); the iteration loop only adopts legal lines and the answer of search is the head of one, from any sane table and any root whose reachable positions have a bounded evaluation "
-        "(Props/C04c: adopted_pv_legal_sane, answer_legal_sane, answer_fide_legal_sane; an in-window root score is never -32718, the one score whose wrapped aspiration window would leave that range); the answer is the head of the adopted PV (search_answer_head). The search model (negamax, quiescence, TT, killers, history, SEE, "
+        "(negamax_pv_legal_partial, hypothesis: window inside [-INF, INF]); the iteration loop only adopts legal lines and the answer of search is a FIDE-legal move of the root, for every legal root position with legal material and every sane table "
+        "(Props/C04d: answer_fide_legal_closed, adopted_pv_legal_closed - hypotheses on the root and the start state only; Props/C04c: the same for an arbitrary class of positions; an in-window root score is never -32718, the one score whose wrapped aspiration window would leave that range); the answer is the head of the adopted PV (search_answer_head). The search model (negamax, quiescence, TT, killers, history, SEE, "
         "all pruning, int16 wrap) is compared with the Go search on every info line, node and poll count with cancellation at chosen polls; answers and PVs are judged by the FIDE spec; "
         "Go-only searches to depth 5 and UCI dialogues (second position on the same game object, immediate timeouts) are judged with the engine's own generator.", ref='5/C04, 10.4',
    note='The node-level theorem is stated for windows inside the score range (it is false outside, kernel-evaluated counterexample in Props/C04c); the loop-level theorems need only a sane table and a bounded evaluation, both invariants; see DESIGN 10.4.'),
@@ -65,7 +65,7 @@ CLAIMS = {
         "kernel-checked per-square injectivity of the 128 dumped magic multipliers over all 107648 relevant subsets, mask irrelevance); knight/king/pawn tables and pawn pushes exact; attackers of a square and check detection exact "
         "(squareAttackedBy_exact, isInCheck_exact); shifts/leaper formulas regenerated from the source text and proved equal to the model (C12c). Tie: all leaper entries, table entries, random occupancies, attackers on generated positions.", ref='5/C12, 10.4'),
  'C13': dict(cat='proof', tech='Lean 4 end-to-end theorem search_plays_mate on the search model (all table states satisfying the preserved invariant, all cancellation points) + correspondence + spec judge on a mate-in-one pool',
-   text="PROVED on the search model (Props/C13, C13b): if some move mates, every completed full-window root search of depth 1..254 returns INF-1 with a mating move heading its PV (searchRoot_mate_in_one) and "
+   text="PROVED on the search model (Props/C13, C13b, C13c): for every legal root position with legal material in which some move mates (no class of positions and no evaluation bound is assumed: the positions the search reaches keep well-formedness and legal material, C04d, and C15 bounds the evaluation there), if some move mates, every completed full-window root search of depth 1..254 returns INF-1 with a mating move heading its PV (searchRoot_mate_in_one) and "
         "search answers with a mating move for every cancellation point incl. the immediate one (search_plays_mate), for every table state in which stored scores are in range and no usable entry sits under the hash of a "
         "checkmated child - an invariant every search preserves and the empty table satisfies - assuming no 64-bit hash collision between a checkmated child and a reachable position with a legal move. "
         "Tie: the search model is compared with the Go search node for node; mate-in-one positions searched at depths 1-4 with cancellation at many polls after searches of predecessor positions and with the clock at 98/99/100, "
